@@ -302,6 +302,8 @@ def to_E(x):
         if f.denominator > 1 << 20:
             raise Unmodelled("float constant %r is not a small dyadic rational" % (x,))
         return E.const(f)
+    if type(x).__name__ == "GScalar":
+        return x.e
     if isinstance(x, astvc.SymInt):
         d = to_dim(x)
         return E.const(d) if isinstance(d, int) else E.atom(("dim", d.name))
@@ -719,6 +721,8 @@ def val_of(t):
         return _read(val_of(t._parent), t._op)
     if isinstance(t, torch.Tensor):
         return from_concrete(t)
+    if isinstance(t, GScalar):
+        return Val((), (), t.e)
     if isinstance(t, (int, float, Fr, np.integer, np.floating, astvc.SymInt, E)):
         return Val((), (), to_E(t))
     raise Unmodelled("operand of type %s" % type(t).__name__)
@@ -989,6 +993,10 @@ def _square(a):
 def _clamp(a, min=None, max=None):
     if min == 0 and max == 1:
         return ewise(lambda x: fn("clamp01", x), a)
+    if min is not None and max is not None and 0 < min <= 1e-6 and 1 - 1e-6 <= max < 1:
+        # clamp_probs of torch.distributions: floats as reals, the machine-epsilon clamp is invisible (recorded)
+        ASSUMED.add("probabilities are clamped to [eps, 1-eps] before log (torch.distributions.utils.clamp_probs): treated as the identity")
+        return val_of(a)
     raise Unmodelled("clamp with bounds other than [0, 1]")
 
 
@@ -1480,6 +1488,54 @@ def _numel(t):
     return r
 
 
+class GScalar:
+    """What .item() returns: a python-level number whose value is a scalar expression."""
+
+    def __init__(self, e):
+        self.e = to_E(e)
+
+    def _b(self, o, f):
+        return GScalar(f(self.e, o.e if isinstance(o, GScalar) else to_E(o)))
+
+    def __add__(self, o): return self._b(o, lambda a, b: a + b)
+    __radd__ = __add__
+    def __sub__(self, o): return self._b(o, lambda a, b: a - b)
+    def __rsub__(self, o): return self._b(o, lambda a, b: b - a)
+    def __mul__(self, o): return self._b(o, lambda a, b: a * b)
+    __rmul__ = __mul__
+    def __truediv__(self, o): return self._b(o, lambda a, b: a / b)
+    def __rtruediv__(self, o): return self._b(o, lambda a, b: b / a)
+    def __neg__(self): return GScalar(-self.e)
+    def __pow__(self, n): return GScalar(self.e ** n)
+
+    def __float__(self):
+        raise Unmodelled("float() of a symbolic scalar")
+
+    def __bool__(self):
+        raise Unmodelled("truth value of a symbolic scalar")
+
+
+@reg("item")
+def _item(t):
+    v = val_of(t)
+    body = v.body.subst({k: 0 for k in v.ix})
+    for d in v.shape:
+        if not _is_one(d):
+            raise RuntimeError("a Tensor with more than one element cannot be converted to Scalar")
+    return GScalar(body)
+
+
+@reg("diagonal")
+def _diagonal(t, offset=0, dim1=0, dim2=1):
+    v = val_of(t)
+    if offset != 0 or v.ndim != 2:
+        raise Unmodelled("diagonal other than the main diagonal of a matrix")
+    if not same_dim(v.shape[0], v.shape[1]):
+        raise Unmodelled("diagonal of a non-square matrix of symbolic shape")
+    k = fresh_ix(v.shape[0])
+    return new(Val((v.shape[0],), (k,), v.at(k, k)))
+
+
 @reg("is_floating_point")
 def _isfp(t):
     return True
@@ -1712,3 +1768,45 @@ def check_frame(vc, name):
     vc._record(name, "discharged" if ok else "violated", None if ok else "in-place writes into read-only inputs: %s" % (FRAME_WRITES[:4],),
                None if ok else {"writes": [list(map(str, w)) for w in FRAME_WRITES[:8]]}, 0.0, "write-log")
     return ok
+
+
+# --------------------------------------------------------------------------------------------------------------------
+# Lean export of contract expressions (so that the size-generic lemmas in lean/ speak about exactly these contracts)
+# --------------------------------------------------------------------------------------------------------------------
+_LEAN_FN = {"softplus": "softplus", "sigmoid": "sigmoid", "exp": "Real.exp", "log": "Real.log", "cos": "Real.cos",
+            "sin": "Real.sin", "sqrt": "Real.sqrt"}
+
+
+def to_lean(e, env=None, depth=0):
+    """Lean 4 term (type ℝ) of a scalar expression; env maps free index variables to Lean identifiers."""
+    env = dict(env or {})
+    if not e.terms:
+        return "(0 : ℝ)"
+    parts = []
+    for c, b, f in sorted(e.terms, key=lambda t: _term_cs(t, {})):
+        e2 = dict(env)
+        binders = []
+        for k in b:
+            nm = "s%d" % (depth + len(binders))
+            e2[k] = nm
+            binders.append("∑ %s : Fin %s, " % (nm, rep(IXDIM[k]).name))
+        fs = []
+        for a, p in f:
+            if a[0] == "el":
+                t = "(%s%s)" % (a[1], "".join(" " + (e2[i] if isinstance(i, str) else "⟨%d, by omega⟩" % i) for i in a[2:]))
+            elif a[0] == "fn":
+                if a[1] == "inv":
+                    t = "(%s)⁻¹" % to_lean(a[2], e2, depth + len(binders))
+                elif a[1] in _LEAN_FN:
+                    t = "(%s %s)" % (_LEAN_FN[a[1]], " ".join("(%s)" % to_lean(x, e2, depth + len(binders)) for x in a[2:]))
+                else:
+                    raise Unmodelled("no Lean export for %s" % a[1])
+            elif a[0] == "dim":
+                t = "(%s : ℝ)" % a[1]
+            else:
+                raise Unmodelled("no Lean export for a Kronecker delta")
+            fs.append(t if p == 1 else "%s ^ %d" % (t, p) if p > 0 else "(%s ^ %d)⁻¹" % (t, -p))
+        coef = "(%d : ℝ)" % c.numerator if c.denominator == 1 else "((%d : ℝ) / %d)" % (c.numerator, c.denominator)
+        body = " * ".join(fs) if fs else "(1 : ℝ)"
+        parts.append("%s * %s(%s)" % (coef, "".join(binders), body) if binders else "%s * (%s)" % (coef, body))
+    return " + ".join(parts)
